@@ -4,31 +4,62 @@ from .. import core
 
 NK = 6  # exception kinds used by harness/h_exn.c
 
-def gen_prog(rng, depth, size):
-    """random program tree; returns sexp"""
+def gen_filter(rng):
+    """a filter *set* of arity 0..4: duplicate-free on purpose — a filter that lists an object twice is known finding
+    KF-C07-filter-dup (exception_catch never returns on a non-matching exception); its witness is corpus/kf_c07_filter_dup.ops"""
+    k = rng.choice([0, 0, 1, 1, 2, 3, 4])
+    return ' '.join(map(str, rng.sample(range(NK), k)))
+
+def gen_prog(rng, depth, size, in_handler=False):
+    """random program tree; returns sexp. Inside the object domain: no throw(NULL), no malformed message."""
     if size <= 1 or depth <= 0:
         r = rng.random()
-        if r < 0.45: return f'(t {rng.randrange(NK)})'
+        if r < 0.40: return f'(t {rng.randrange(NK)})'
+        if r < (0.60 if in_handler else 0.44): return '(r)'          # rethrow of the bound object
         return f'(s {rng.randrange(100)})'
     r = rng.random()
     if r < 0.30:
-        a = rng.randrange(1, size); return f'(q {gen_prog(rng, depth, a)} {gen_prog(rng, depth, size - a)})'
-    if r < 0.85:
+        a = rng.randrange(1, size); return f'(q {gen_prog(rng, depth, a, in_handler)} {gen_prog(rng, depth, size - a, in_handler)})'
+    if r < 0.82:
         a = rng.randrange(1, size)
-        k = rng.choice([0, 0, 1, 1, 2, 3])
-        filt = ' '.join(map(str, rng.sample(range(NK), k)))   # a filter *set*: a repeated object in a tuple is known finding F13
-        return f'(c {gen_prog(rng, depth - 1, a)} ({filt}) {gen_prog(rng, depth - 1, size - a)})'
-    if r < 0.95: return f'(f {gen_prog(rng, depth, size - 1)})'
+        return f'(c {gen_prog(rng, depth - 1, a, in_handler)} ({gen_filter(rng)}) {gen_prog(rng, depth - 1, size - a, True)})'
+    if r < 0.90: return f'(f {gen_prog(rng, depth, size - 1, in_handler)})'
+    if r < 0.96: return f'(d {rng.choice([2, 3, 9, 40, 150])} {gen_prog(rng, depth, size - 1, in_handler)})'   # callee at dynamic depth
     return f'(t {rng.randrange(NK)})'
 
-def enum_progs(nodes, kinds=(0, 1), filters=((), (0,), (1,), (0, 1))):
+def gen_handler_chain(rng, n):
+    """n blocks, each handler throwing / rethrowing into the next enclosing one; the throw comes from a callee"""
+    k = rng.randrange(NK)
+    p = f'(d {rng.choice([0, 1, 5, 60])} (q (s 0) (t {k})))'
+    for d in range(n):
+        act = rng.choice(['r', 'r', 't', 's', 'inner'])
+        if act == 'r': h = f'(q (s {10 + d}) (r))'
+        elif act == 't': k = rng.randrange(NK); h = f'(q (s {10 + d}) (f (t {k})))'
+        elif act == 's': h = f'(s {10 + d})'
+        else:  # an inner handled exception overwrites the record's object before the rethrow
+            h = f'(q (c (t {rng.randrange(NK)}) ({gen_filter(rng)}) (s {50 + d})) (r))'
+        p = f'(c {p} ({gen_filter(rng)}) {h})'
+        if rng.random() < 0.3: p = f'(q {p} (s {30 + d}))'
+    return p
+
+def gen_reentry(rng):
+    """one try site (same filter arity) entered again inside its own body; the inner activation ends, then a throw
+    must reach the outer activation (a per-site static jump buffer breaks exactly this: seeded c07_f)"""
+    ar = rng.randrange(0, 5)
+    f1 = ' '.join(map(str, rng.sample(range(NK), ar))); f2 = ' '.join(map(str, rng.sample(range(NK), ar)))
+    inner_body = rng.choice(['(s 1)', f'(t {rng.randrange(NK)})', f'(f (t {rng.randrange(NK)}))'])
+    wrap = rng.choice(['{}', '(f {})', '(d 4 {})'])
+    inner = wrap.format(f'(c {inner_body} ({f2}) (s 2))')
+    return f'(c (q {inner} (t {rng.randrange(NK)})) ({f1}) (q (s 3) (r)))'
+
+def enum_progs(nodes, kinds=(0, 1), filters=((), (0,), (1,), (0, 1)), rethrow=True):
     """every program tree with exactly `nodes` constructor nodes over the given kinds/filters (statements share tag by position)"""
     memo = {}
     def go(n):
         if n in memo: return memo[n]
         out = []
         if n == 1:
-            out = ['(s 1)'] + [f'(t {k})' for k in kinds]
+            out = ['(s 1)'] + [f'(t {k})' for k in kinds] + (['(r)'] if rethrow else [])
         else:
             for a in range(1, n - 1):
                 for x in go(a):
@@ -52,24 +83,37 @@ class C07(Spec):
     id = 'C07'; engine = 'exn'; harness = 'h_exn'; driver = 'drv_exn'
     generators = ('Exn',)
     technique = 'Lean 4 proof by structural induction: machine model of the macros refines structured-exception semantics; source-derived parameters regenerated each run; differential check against the real macros'
-    level_text = ('Theorem C07_machine_refines_reference: for every program tree, nesting bound and start state, the model of try/catch/throw '
-                  '(depth, active flag, jump-buffer indices) produces exactly the trace of a structured-exception reference semantics, restores the depth, '
-                  'never aborts or jumps to a dead buffer. The parameters that a source change can flip (does exception_catch consume; EXCEPTION_MAX_DEPTH; '
-                  'the macro texts) are regenerated from /repo on every run and the theorem is re-checked against them; the machine model is tied to the '
-                  'real macros by running thousands of program trees (exhaustive small trees, random, lexical and deep dynamic nesting) on both.')
-    level_note = ('Trusted: Lean kernel; axioms propext/Quot.sound/Classical.choice at most; the regex translator for Exception.c; the harness/driver comparison '
-                  '(testing); setjmp/longjmp and process exit status are modelled. Not covered: signals-to-exceptions, stack traces, other threads (C13).')
-    rule = ('program trees: (a) exhaustive enumeration of all trees with up to N constructor nodes over 2 exception kinds and 4 filter '
-            'sets, (b) random trees (depth<=6, size<=40, 6 kinds, filter arity 0-3, calls), (c) lexically nested 3-level blocks inside '
-            'one C function for every throw/filter choice sampled, (d) dynamic nesting to depth 200/2000. Each runs on the real '
-            'macros in a forked child; trace, end state and depth are compared with the Lean machine and with an independent '
-            'reference interpreter in C. non-trivial = the trace contains at least one handler event or the program ends fatal; '
-            'distinct = distinct program text.')
-    trusted_base = ('translate/gen.py generator Exn (regex over src/Exception.c and the try/catch_in macros)',
+    level_text = ('Theorem C07_machine_refines_reference: for every program tree inside the stated domain (non-NULL exception objects with '
+                  'well-formed messages, duplicate-free catch filters, nesting within EXCEPTION_MAX_DEPTH), every bound variable and start state, '
+                  'the model of try/catch/throw (depth, active flag, jump-buffer indices, the filter walk of exception_catch over the Tuple) produces '
+                  'exactly the trace of a structured-exception reference semantics — throws from bodies, callees and handlers, rethrow of the bound '
+                  'object — restores the depth, never aborts, hangs or jumps to a dead buffer; C07_no_undefined_jump and C07_overflow_aborts cover '
+                  'every program without those hypotheses; histories by C07_sequence_history. Outside the domain the model mirrors the code and the '
+                  '…_refuted theorems exhibit the departure (repeated filter object: hang; throw(NULL): handler skipped; malformed message: FormatError '
+                  'bound). The parameters that a source change can flip (does exception_catch consume; EXCEPTION_MAX_DEPTH; the macro texts; statement '
+                  'order in exception_throw; the filter loop; Tuple_Iter_Next) are regenerated from /repo on every run and the theorems re-checked '
+                  'against them; the machine model is tied to the real macros by running thousands of program trees on both.')
+    level_note = ('Trusted: Lean kernel; axioms propext/Quot.sound/Classical.choice at most; the regex translator for Exception.c/Tuple.c/Cello.h; the '
+                  'harness/driver comparison (testing); setjmp/longjmp and process exit status are modelled. Not covered: signals-to-exceptions, stack '
+                  'traces, the text of the diagnostic beyond "Uncaught", other threads (C13), exception objects on a dead stack frame.')
+    rule = ('program trees: (a) exhaustive enumeration of all trees with up to N constructor nodes over 2 exception kinds, rethrow and 4 filter '
+            'sets, (b) random trees (depth<=6, size<=40, 6 kinds, filter arity 0-4, calls, callees at dynamic depth up to 150 frames, rethrow), '
+            '(c) lexically nested 3-level blocks inside one C function for every throw/filter choice sampled, (d) dynamic nesting to depth '
+            '200/2000 plus corpus: exactly EXCEPTION_MAX_DEPTH and one more (abort), (e) chains of handlers that throw/rethrow into the enclosing '
+            'block, (f) one try site re-entered recursively. Each runs on the real macros in a forked child under alarm(); trace, end state and '
+            'depth are compared with the Lean machine and with an independent reference interpreter in C. non-trivial = the trace contains at least '
+            'one handler event or the program ends fatal/abort/hang; distinct = distinct program text.')
+    trusted_base = ('translate/gen.py generator Exn (regex over src/Exception.c, src/Tuple.c Tuple_Iter_Next and the try / catch_in / throw macros)',
                     'harness/h_exn.c + lean/Driver/Exn.lean (correspondence is testing)',
-                    'setjmp/longjmp, fork/exit status (libc) are modelled, not verified')
-    assumptions = ('single thread; try-nesting depth within EXCEPTION_MAX_DEPTH; no return/goto out of a try body (documented misuse)',
-                   'exception kinds are distinct Cello objects compared by eq')
+                    'setjmp/longjmp, fork/exit status/alarm (libc) are modelled, not verified')
+    assumptions = ('single thread; no return/goto out of a try body (documented misuse)',
+                   'try-nesting depth within EXCEPTION_MAX_DEPTH for the refinement theorems (beyond it: modelled and tested, exception_try aborts: C07_overflow_aborts)',
+                   'object domain (hypothesis inDomain of the theorems): exception objects and filter entries are non-NULL Type objects with distinct names (the library\'s …Error objects) '
+                   'that outlive the jump, compared by eq = identity, which cannot raise; the message format has enough arguments. Outside it (corpus/exn_domain.ops, modelled, not judged '
+                   'by the direct oracle): throw(NULL) is consumed by a catch-all without running the handler, eq(arg, NULL) raises ValueError inside exception_catch; a message with too few '
+                   'arguments makes exception_throw raise FormatError in place of the named object (mechanism of KF-C08-terminal-message)',
+                   'catch filters list pairwise distinct objects (hypothesis nodupFilters); generated filters are sets; a repeated object is known finding KF-C07-filter-dup '
+                   '(witness corpus/kf_c07_filter_dup.ops, model outcome `hang`, theorems C07_duplicate_filter_refuted / C07_duplicate_filter_hangs)')
     def cases(self, rng, tier, boost=1):
         cs = []
         quick = tier == 'quick'
@@ -102,21 +146,39 @@ class C07(Spec):
             for kind, fi, fo in [(0, '1', '0'), (0, '1', '1'), (2, '', '2'), (3, '4', '')]:
                 deep.append('P ' + nested(d, kind, fi, fo))
         cs.append(Case('deep', deep))
+        # (e) handler chains: throw / rethrow from handlers into the enclosing block, thrower in a callee
+        ch = []
+        for i in range((300 if quick else 6000) * boost):
+            ch.append('P ' + gen_handler_chain(rng, rng.randrange(1, 7)))
+        for i in range(0, len(ch), 500):
+            cs.append(Case(f'chain{i//500}', ch[i:i+500]))
+        # (f) a try site re-entered recursively
+        re_ = []
+        for i in range((150 if quick else 3000) * boost):
+            re_.append('P ' + gen_reentry(rng))
+        for i in range(0, len(re_), 500):
+            cs.append(Case(f'reentry{i//500}', re_[i:i+500]))
         return cs
     def nontrivial_items(self, case, c_out, m_out):
         ops = [l for l in case.lines if l and not l.startswith('#')]
         obs = core.lines_with('O ', c_out)
-        return {hash(op) for op, o in zip(ops, obs) if ('h' in o.split('end=')[0] or 'end=fatal' in o)}
+        return {hash(op) for op, o in zip(ops, obs) if ('h' in o.split('end=')[0] or 'end=fatal' in o or 'end=abort' in o or 'end=hang' in o)}
     def stats(self, case, c_out, m_out, acc):
         for l in core.lines_with('O ', c_out):
             acc['programs'] = acc.get('programs', 0) + 1
             if 'h' in l.split('end=')[0]: acc['with_handler'] = acc.get('with_handler', 0) + 1
             e = l.split('end=')[1].split()[0] if 'end=' in l else '?'
             acc['end_' + e] = acc.get('end_' + e, 0) + 1
+        for l in case.lines:
+            if l.startswith('P '):
+                if '(r)' in l: acc['with_rethrow'] = acc.get('with_rethrow', 0) + 1
+                if '(d ' in l: acc['with_deep_call'] = acc.get('with_deep_call', 0) + 1
+                if '(n)' in l or '(m ' in l: acc['out_of_domain'] = acc.get('out_of_domain', 0) + 1
     def model_selfcheck(self, case, m_out):
         ls = m_out.split('\n')
         for i in range(len(ls) - 1):
-            if ls[i].startswith('O ') and ls[i+1].startswith('R '):
+            # only where the hypotheses of C07_current_source hold (inDomain, nodupFilters, nesting fits): hyp=true
+            if ls[i].startswith('O ') and ls[i+1].startswith('R ') and 'hyp=true' in ls[i+1]:
                 ot = ls[i].split('trace=')[1].split(' end=')[0]; rt = ls[i+1].split('trace=')[1].split(' exc=')[0]
                 oend = ls[i].split('end=')[1].split()[0]; rexc = ls[i+1].split('exc=')[1].split()[0]
                 if ot != rt or (oend == 'normal') != (rexc == 'none'):
